@@ -4,3 +4,4 @@ import Props.C03
 import Props.C04
 import Props.C16
 import Props.C20
+import Props.C05
